@@ -94,7 +94,7 @@ func buildTracked(n Node, path string, all *[]*mStack) (any, *mStack) {
 		s.SetNoNesting(true)
 	}
 	if n.Amb != 0 {
-		ApplyAmbient(s, n.Amb&^AmbErr) // (Err() after Defrag is part of the statement)
+		ApplyAmbient(s, n.Amb&^AmbErr) // (an error recorded earlier is exercised separately below, where Defrag is known to succeed)
 	}
 	return wrapStack(s, n.Wrap), ms
 }
@@ -382,7 +382,8 @@ func runC19(c C19Case) (st Stats, err error) {
 			switch {
 			case fmt.Sprint(now) != fmt.Sprint(want):
 				l1fail = fmt.Sprintf("%s: content after Defrag %v, want the former non-nil elements %v (pattern %s)", m.path, now, want, patternOf(bef[i].ids))
-			case m.h.Err() != nil:
+			case m.h.Err() != nil && len(want) != len(bef[i].ids):
+				// (a stack that held no nil itself is "left untouched", an error recorded earlier included)
 				l1fail = fmt.Sprintf("%s: Err()=%v after Defrag (pattern %s)", m.path, m.h.Err(), patternOf(bef[i].ids))
 			}
 		}
@@ -390,6 +391,36 @@ func runC19(c C19Case) (st Stats, err error) {
 	if !strict || l1fail == "" {
 		if l1fail == "" && anyNil && strict {
 			st.Class("L1-held")
+			// Defrag does its job on this tree. The same tree again, every stack (and every Condition) carrying
+			// an error recorded earlier: the result is the same, and every stack that held a nil reports Err()==nil
+			var all2 []*mStack
+			root2, _ := buildTracked(c.Root, "r", &all2)
+			rs, _ := unwrapStack(root2)
+			had := map[string]bool{}
+			for _, m := range all2 {
+				had[m.path] = len(nonNil(realIDs(m.h))) != len(realIDs(m.h))
+				m.h.SetErr(errAmbient)
+			}
+			var p string
+			if c.Limit != 0 {
+				p = guard(func() { rs.Defrag(c.Limit) })
+			} else {
+				p = guard(func() { rs.Defrag() })
+			}
+			if p != "" {
+				return st, violf("defrag/stale-error/panic", "%s", p)
+			}
+			for i, m := range all2 {
+				if a, b := len(realIDs(m.h)), len(realIDs(all[i].h)); a != b {
+					return st, violf("defrag/stale-error/result", "%s: with an error recorded earlier Defrag leaves %d elements, without it %d\n  tree %s", m.path, a, b, c.Root.Brief())
+				}
+				// (asserted for the stack Defrag was called on; nested stacks are observed to keep such an error even
+				// when they are compacted - one more face of the listed finding, see DESIGN.md R25 - and are not asserted)
+				if i == 0 && had[m.path] && m.h.Err() != nil {
+					return st, violf("defrag/stale-error", "%s: Defrag compacted the stack but Err() still reports the error recorded earlier: %v\n  tree %s", m.path, m.h.Err(), c.Root.Brief())
+				}
+			}
+			st.Class("L1-held-with-stale-error")
 		}
 		return st, nil
 	}
